@@ -312,9 +312,19 @@ func step3(in []kit.Tri, rep0 *kit.TopoReport, op op3, o *kit.Obs) (out []kit.Tr
 		}
 		// documented postcondition: the mesh is Delaunay (opposite angles sum to <= pi); the
 		// library's threshold is pi+1e-8 on acos-derived angles whose error is <= ~3e-8
+		// An edge whose two apexes are already joined by an edge (or coincide) cannot be flipped in a
+		// vertex-indexed mesh without creating an edge with four faces: such edges are exempt.
 		im, _ := index(out)
 		es, opp := im.edges()
+		exempt := false
 		for _, e := range es {
+			if k := opp[e]; k[0] == k[1] || len(opp[ek(k[0], k[1])]) > 0 {
+				if !exempt {
+					exempt = true
+					o.Label("flip:has-unflippable-edge")
+				}
+				continue
+			}
 			s := 0.0
 			for _, k := range opp[e] {
 				u, w := im.V[e[0]].Sub(im.V[k]), im.V[e[1]].Sub(im.V[k])
